@@ -668,6 +668,24 @@ class Exec:
             if not (infos[0] is infos[1] is infos[2]) or infos[0].filename != name:
                 self.fail(f'the three name forms of {name!r} resolve to {[i.filename for i in infos]}', key='name-forms-disagree')
             self.run.count('name_forms_compared')
+            # other spellings of the same folder (the documented normalisation: trailing '/', leading './', doubled and
+            # backward slashes) name the same file in every form
+            folder, base, ext = self.idents[name]
+            fname = base + ('.' + ext if ext else '')
+            spell = []
+            if folder:
+                spell = [(folder + '/', fname), ('./' + folder, fname), (folder.replace('/', '\\'), base, ext), folder + '//' + fname,
+                         './' + folder + '/' + fname, (folder + '/./', base, ext)]
+            else:
+                spell = ['./' + fname, ('.', fname), ('./', base, ext)]
+            for sp in spell:
+                try:
+                    other_info = fresh[sp]
+                except Exception as exc:
+                    self.fail(f'{sp!r}, another spelling of {name!r}, is not found in the reopened archive ({type(exc).__name__})', key='name-forms-disagree')
+                if other_info is not infos[0]:
+                    self.fail(f'{sp!r}, another spelling of {name!r}, resolves to {other_info.filename!r}', key='name-forms-disagree')
+            self.run.count('folder_spellings_compared')
         # read-only rejection on the fresh object
         saved_vpk, saved_mode = self.vpk, self.mode
         self.vpk, self.mode = fresh, 'r'
@@ -817,7 +835,7 @@ def main(run, shard=(0, 1)) -> None:
         shutil.rmtree(base, ignore_errors=True)
     probe.report(run)
     probe.check_reached(run)
-    run.require('files_created_relative_to_root', 'dir_limit_set_as_attribute', 'forged_crc_and_length_writes', 'operations', 'dirfile_writes', 'file_reads_compared', 'decoder_files_compared', 'name_forms_compared',
+    run.require('files_created_relative_to_root', 'dir_limit_set_as_attribute', 'forged_crc_and_length_writes', 'folder_spellings_compared', 'operations', 'dirfile_writes', 'file_reads_compared', 'decoder_files_compared', 'name_forms_compared',
                 'readonly_rejections', 'overwrites', 'deletes', 'writes_crossing_preload_limit', 'writes_over_64k',
                 'open_a', 'open_r', 'open_w')
 
